@@ -1109,6 +1109,11 @@ class Interp:
                 def f(d):
                     if k is None:
                         d.shrink(ls)
+                        d.unk.add(ls)
+                        return
+                    if any(s_ in d.unk for s_ in k.syms()):
+                        d.shrink(ls)
+                        d.unk.add(ls)
                         return
                     klo = lin_lower(d, k)
                     if klo >= 1 and lin_upper(d, k.add(Lin.sym(ls), -1)) <= 0:
@@ -1171,6 +1176,51 @@ class Interp:
         return self.call_result(n, st) if is_int_type(typ(n)) else None
 
     # ------------------------------------------------------------------ inlining
+    def inline_cond(self, fid, args, st, call):
+        """a boolean lambda used as a condition: (states where it returns true, states where it returns false)"""
+        f = self.F.fns.get(fid)
+        if f is None or f.body is None:
+            return None
+        st = st.copy()
+        vals = [self.eval(a, st) for a in args]
+        self.env.inlined.add(fid)
+        sub = Interp(self.F, f, self.env)
+        sub.record = self.record
+        sub.lambdas = dict(self.lambdas)
+        sub.strarrays = self.strarrays
+        sub.names = self.names
+        sub.depth = self.depth + 1
+        sub.ctx = ["%s:%d" % (self.fn.loc().rsplit(":", 1)[0].split("/")[-1], call.get("l", 0))] + self.ctx
+        sub.tracked_bools = sub.tracked_bools | self.tracked_bools
+        sub.ret_as_cond = True
+        for p, a, v in zip(f.params, args, vals):
+            t = p.get("type", "")
+            if is_int_type(t) or self.env.enum_range(t):
+                s_ = "v:" + p["decl"]
+                self.names.setdefault(s_, p.get("name"))
+                self.assign(st, s_, v, unknown=v is None)
+        flow = sub.exec(f.body, st)
+        ts, fs = [], []
+        for rs, rv in flow.ret:
+            if isinstance(rv, tuple) and rv[0] == "cond":
+                ts.append(rv[1])
+                fs.append(rv[2])
+            else:
+                ts.append(rs)
+                fs.append(rs.copy())
+        dead = set()
+        for x in f.all_nodes():
+            if x.get("k") == "decl":
+                for v in x.get("vars", []):
+                    if v.get("decl"):
+                        dead.add("v:" + v["decl"])
+        for p in f.params:
+            dead.add("v:" + p["decl"])
+        t, fl = join_all(ts), join_all(fs)
+        for x in (t, fl):
+            x.forget(syms=list(dead))
+        return t, fl
+
     def inline(self, fid, args, st, call):
         f = self.F.fns.get(fid)
         if f is None or self.depth > 3:
@@ -1300,6 +1350,12 @@ class Interp:
                     return self.cond(r[1], st)
                 finally:
                     self.depth -= 1
+        if k == "call" and n.get("ck") == "operator" and n.get("op") == "()" and n.get("args"):
+            f0 = skip_copies(n["args"][0])
+            if isinstance(f0, dict) and f0.get("k") == "ref" and f0.get("decl") in self.lambdas and self.depth <= 3:
+                r = self.inline_cond(self.lambdas[f0["decl"]], n["args"][1:], st, n)
+                if r is not None:
+                    return r
         s = st.copy()
         v = self.eval(n, s)
         if v is not None and (is_int_type(typ(n))):
@@ -1442,6 +1498,10 @@ class Interp:
     def x_return(self, n, st):
         e = n.get("e")
         v = None
+        if getattr(self, "ret_as_cond", False) and isinstance(e, dict):
+            t, f = self.cond(e, st)
+            self.drop_temps(t, f)
+            return Flow(St.bottom(), ret=[(st, ("cond", t, f))])
         if isinstance(e, dict):
             if is_container_type(typ(e)):
                 self.cval(e, st)
@@ -1803,6 +1863,9 @@ class Interp:
                 self.ob("term", n, None, "%s: the loop writes no integer or container length the analysis tracks; no ranking function can be formed" % what, key)
                 return
             tried = ", ".join(sorted({self.names.get(s, s) for s, _ in cands}))
+            if any(s in d.unk for s, _ in cands for d in bd):
+                self.ob("term", n, None, "%s: progress of {%s} depends on a value the analysis does not model; no ranking function can be formed" % (what, tried), key)
+                return
             self.ob("term", n, False, "%s: no ranking function — none of {%s} makes bounded strict progress on every path back to the loop head" % (what, tried), key)
             return
         desc = " then ".join("%s %s bounded by %s" % (self.names.get(r[0], r[0]), "increases" if r[2] else "decreases", "0" if r[3] == Z else self.names.get(r[3], r[3])) for r in chosen)
